@@ -222,14 +222,23 @@ def describe(libxml, mode, flags, u, data, report, what, size=None, env=None):
                 "\n".join("# " + l for l in report.splitlines()[:25])))
 
 
+# documented environment variables that change what the loader does AFTER the import (memory tiers are re-guessed / forced on top of
+# the imported subtypes); a quarter of the harness processes run under one of them (C06-r8)
+PROCESS_ENVS = [None, None, None, None, None, None, {"HWLOC_MEMTIERS_REFRESH": "1"}, {"HWLOC_MEMTIERS_REFRESH": "1"},
+                None, None, {"HWLOC_MEMTIERS": "0x1=HBM;0x2=DRAM"}, {"HWLOC_MEMTIERS_GUESS": "all", "HWLOC_MEMTIERS_REFRESH": "1"},
+                None, None, {"HWLOC_MEMTIERS": "none"}, {"HWLOC_MEMTIERS_REFRESH": "1"}]
+KEEP_ENV = KEEP_ENV + ("HWLOC_MEMTIERS_REFRESH", "HWLOC_MEMTIERS", "HWLOC_MEMTIERS_GUESS")
+
+
 def one_run(binp, workdir, idx, seed, n, sources, libxml=None, tag="r"):
     d = os.path.join(workdir, "%s%d" % (tag, idx))
     os.makedirs(d, exist_ok=True)
     if libxml is None:
         libxml = idx % 2
-    r = run([binp, "gen", str(n), sources, d], env=_env(seed, libxml), errors="replace")
+    extra = PROCESS_ENVS[idx % len(PROCESS_ENVS)]
+    r = run([binp, "gen", str(n), sources, d], env=_env(seed, libxml, extra), errors="replace")
     plan = read_lines(os.path.join(d, "plan.txt")) if os.path.exists(os.path.join(d, "plan.txt")) else []
-    res = {"seed": seed, "rc": r.returncode, "out": r.stdout[-12000:], "libxml": libxml, "plan": plan, "verdicts": {},
+    res = {"seed": seed, "rc": r.returncode, "out": r.stdout[-12000:], "libxml": libxml, "plan": plan, "verdicts": {}, "extra": extra,
            "kind": classify(r.returncode, r.stdout), "culprit": None, "badwf": []}
     dump = os.path.join(d, "dump.txt")
     if os.path.exists(dump) and os.path.getsize(dump):
@@ -379,6 +388,8 @@ def run_engine(tier, seed, sizes=None):
                 stats["distdrop.oracle_applied"] = stats.get("distdrop.oracle_applied", 0) + int(t[3])
                 stats["distdrop.oracle_noopinion"] = stats.get("distdrop.oracle_noopinion", 0) + int(t[5])
                 stats["distdrop.list_probes"] = stats.get("distdrop.list_probes", 0) + int(t[7])
+        if r.get("extra"):
+            stats["process_env." + ",".join(sorted(r["extra"]))] = stats.get("process_env." + ",".join(sorted(r["extra"])), 0) + 1
         nv = sum(1 for v in r["verdicts"].values())
         stats["dumps_judged"] = stats.get("dumps_judged", 0) + nv
         if any(l.split()[-1] == "skipped-F71" for l in r["plan"] if l and not l.startswith("#")):
@@ -415,12 +426,12 @@ def run_engine(tier, seed, sizes=None):
             add_problem(("UNMUTATED valid document loads non-WF: " if t[0] in unmut else "loaded topology is not well-formed: ") +
                         ";".join("%s: %s" % kv for kv in sorted(bad.items()))[:300],
                         r["seed"], r["libxml"], t[1], int(t[2]), t[3] == "1", data, nw, str(bad),
-                        extra_env=DD_ORACLE_ENV if t[0] in r["dd_oracle"] else None)
+                        extra_env=dict(r["extra"] or {}, **(DD_ORACLE_ENV if t[0] in r["dd_oracle"] else {})) or None)
         if r["kind"]:
             if r["culprit"]:
                 t, data = r["culprit"]
                 add_problem("harness process failed: " + r["kind"], r["seed"], r["libxml"], t[1], int(t[2]), t[3] == "1", data, r["kind"], r["out"],
-                            extra_env=DD_ORACLE_ENV if t[0] in r["dd_oracle"] else None)
+                            extra_env=dict(r["extra"] or {}, **(DD_ORACLE_ENV if t[0] in r["dd_oracle"] else {})) or None)
             elif r["kind"] not in seen_kinds:
                 seen_kinds.add(r["kind"])
                 problems.append({"what": "harness process failed outside a case: " + r["kind"], "seed": r["seed"],
